@@ -199,3 +199,34 @@ def run_ctor(cls):
             if not ok and bad('transforms_shape=%r dofs_shape=%r start=%r counts=%r' % (T, N, start, lens), '_ndofs=%r ndofs=%r nelems=%r' % ([list(x) for x in b._ndofs], b.ndofs, b.nelems)):
                 return
     print('REPLAY: not reproduced on the small inputs enumerated')
+
+
+def run_getitem():
+    """basis[mask] / basis[index array]: MaskedBasis exactly for a mask of length ndofs / a strictly increasing index array"""
+    from nutils import function
+    parent, _ = _plain([[0, 1], [2, 1]], 3)
+    for n in range(0, 6):
+        for mask in itertools.product([False, True], repeat=n):
+            try:
+                r = parent[numpy.array(mask, dtype=bool)]
+                got = ('MaskedBasis', r._indices.tolist()) if isinstance(r, function.MaskedBasis) else type(r).__name__
+            except Exception as e:
+                got = type(e).__name__
+            want = ('MaskedBasis', [i for i, m in enumerate(mask) if m]) if n == 3 else None
+            if (n == 3 and got != want) or (n != 3 and isinstance(got, tuple)):
+                print('basis (3 dofs)[mask %r] -> %r ; expected %s' % (list(mask), got, want if n == 3 else 'no MaskedBasis for a mask of the wrong length'))
+                print('REPLAY: VIOLATION-CONFIRMED Basis.__getitem__')
+                return
+    for k in range(0, 4):
+        for ind in itertools.product(range(0, 3), repeat=k):
+            inc = all(a < b for a, b in zip(ind, ind[1:]))
+            try:
+                r = parent[numpy.array(ind, dtype=int)]
+                got = ('MaskedBasis', r._indices.tolist()) if isinstance(r, function.MaskedBasis) else type(r).__name__
+            except Exception as e:
+                got = type(e).__name__
+            if (inc and got != ('MaskedBasis', list(ind))) or (not inc and (isinstance(got, tuple) or got.endswith('Error'))):
+                print('basis (3 dofs)[index array %r] -> %r ; expected %s' % (list(ind), got, 'MaskedBasis with these indices' if inc else 'plain array indexing (no MaskedBasis, no error)'))
+                print('REPLAY: VIOLATION-CONFIRMED Basis.__getitem__')
+                return
+    print('REPLAY: not reproduced on the small inputs enumerated')
